@@ -102,7 +102,6 @@ func (c *containerImpl) ensureChildren() {
 }
 
 func (c *containerImpl) Child(name string) Node {
-	c.ensureChildren()
 	if listPathRe.MatchString(name) {
 		idx := listPathRe.FindStringIndex(name)
 		index, _ := strconv.Atoi(name[idx[0]+1 : idx[1]-1])
@@ -145,7 +144,9 @@ func (c *containerImpl) SameAs(node Node) bool {
 }
 
 func (c *containerImpl) Children() map[string]Node {
-	c.ensureChildren()
+	if c.children == nil {
+		return map[string]Node{}
+	}
 	return c.children
 }
 
@@ -157,7 +158,6 @@ func (c *containerImpl) Lookup(path string) Node {
 	if path == "" {
 		return nil
 	}
-	c.ensureChildren()
 	pc := strings.Split(path, ".")
 	var current Container
 	current = c
@@ -190,7 +190,6 @@ func (c *containerBuilderImpl) Seal() Container {
 }
 
 func (c *containerBuilderImpl) Walk(fn WalkFn) {
-	c.ensureChildren()
 	for k, v := range c.children {
 		if v.IsContainer() {
 			v.(ContainerBuilder).Walk(fn)
